@@ -6,6 +6,7 @@ use crate::rep::{guard, Report};
 use crate::rng::Rng;
 use crate::work::{lengths, params_for, show_ins, stream_for};
 use crate::{Ctx, P, V};
+use crate::sv::SV;
 use serde_json::{json, Value};
 use yata::core::Candle;
 
@@ -18,13 +19,77 @@ fn has_null(v: &Value) -> bool {
 	}
 }
 
+enum Snap {
+	J(Value),
+	B(SV),
+}
+impl Snap {
+	fn json_with_null(&self) -> bool {
+		matches!(self, Snap::J(v) if has_null(v))
+	}
+	fn nonfinite(&self) -> bool {
+		matches!(self, Snap::B(v) if v.has_nonfinite())
+	}
+	fn restore_m(&self, inst: &dyn reg::DM) -> Result<Box<dyn reg::DM>, String> {
+		match self {
+			Snap::J(v) => inst.de(v),
+			Snap::B(v) => inst.de_b(v),
+		}
+	}
+	fn same_as_m(&self, rs: &dyn reg::DM) -> bool {
+		match self {
+			Snap::J(v) => rs.ser().ok().as_ref() == Some(v),
+			Snap::B(v) => rs.ser_b().ok().as_ref() == Some(v),
+		}
+	}
+	fn restore_i(&self, inst: &dyn reg::DI) -> Result<Box<dyn reg::DI>, String> {
+		match self {
+			Snap::J(v) => inst.de(v),
+			Snap::B(v) => inst.de_b(v),
+		}
+	}
+	fn same_as_i(&self, rs: &dyn reg::DI) -> bool {
+		match self {
+			Snap::J(v) => rs.ser().ok().as_ref() == Some(v),
+			Snap::B(v) => rs.ser_b().ok().as_ref() == Some(v),
+		}
+	}
+}
+
+/// candle stream for the indicator snapshots: a quarter of them contains candles without volume (NaN)
+fn ind_candles(seed: u64) -> Vec<Candle> {
+	let mut cs = gen::candles((seed % 5) as usize, seed, 160, 14);
+	if (seed >> 8 ^ seed >> 3) % 4 == 0 {
+		let mut vr = Rng::new(seed ^ 0x7b7b);
+		let all = vr.chance(0.3);
+		for c in cs.iter_mut() {
+			if all || vr.chance(0.3) {
+				c.volume = V::NAN;
+			}
+		}
+	}
+	cs
+}
+
 fn snapshot_method(m: &MDesc, len: u64, class: usize, seed: u64, all_k: bool, r: &mut Report) {
 	let mut rng = Rng::new(seed ^ 0x1313);
 	let par = if (m.name == "Integral" || m.name == "ADI") && len == 0 { Par::L(0) } else { params_for(m, len, &mut rng) };
 	let n = par.len().max(1);
 	let pre = (3 * n + 2).min(400);
 	let cont = (2 * n + 50).min(400);
-	let xs = stream_for(m, class, seed, pre + cont, n);
+	let mut xs = stream_for(m, class, seed, pre + cont, n);
+	// candles without volume (volume = NaN) are valid input: a third of the candle streams has some, a ninth only such
+	if m.inp == reg::InKind::C {
+		let mode = (seed >> 16 ^ seed) % 9;
+		let mut vr = Rng::new(seed ^ 0x7a7a);
+		for x in xs.iter_mut() {
+			if let In::C(c) = x {
+				if mode == 0 || (mode <= 2 && vr.chance(0.3)) {
+					c.volume = V::NAN;
+				}
+			}
+		}
+	}
 	let init = xs[0].clone();
 	let ks: Vec<usize> = if all_k || n <= 10 { (0..=pre).collect() } else { let mut v = vec![0, 1, n - 1, n, n + 1, 2 * n, pre]; for _ in 0..8 { v.push(rng.below(pre as u64 + 1) as usize); } v.retain(|k| *k <= pre); v };
 	let case = |k: usize, what: &str| json!({"method": m.name, "params": par.show(), "len": len, "stream_class": class, "seed": seed, "snapshot_after_steps": k, "what": what, "first_inputs": show_ins(&xs[..xs.len().min(8)])});
@@ -32,8 +97,10 @@ fn snapshot_method(m: &MDesc, len: u64, class: usize, seed: u64, all_k: bool, r:
 	let mut done = 0usize;
 	for k in 0..=pre {
 		if ks.contains(&k) {
+			// two routes: JSON value (+ text), and the bit-exact tree of sv.rs (which can carry NaN / inf state)
+			for route in 0..2 {
 			r.eval(1);
-			let snap = match guard(|| inst.ser()) {
+			let snap = match guard(|| if route == 0 { inst.ser().map(Snap::J) } else { inst.ser_b().map(Snap::B) }) {
 				Ok(Ok(v)) => v,
 				Ok(Err(e)) => {
 					r.violate(&format!("C13|{}|serialize-error", m.name), &e, || case(k, "serialize"));
@@ -44,26 +111,31 @@ fn snapshot_method(m: &MDesc, len: u64, class: usize, seed: u64, all_k: bool, r:
 					return;
 				}
 			};
-			if has_null(&snap) {
-				// NaN/inf in the state is not representable in a JSON value: counted, not judged
-				r.count("snapshots_skipped_non_finite_state", 1);
+			if snap.json_with_null() {
+				// NaN/inf in the state is not representable in a JSON value: left to the bit-exact route
+				r.count("json_snapshots_skipped_non_finite_state", 1);
 			} else {
+				if snap.nonfinite() {
+					r.count("bit_exact_snapshots_with_non_finite_state", 1);
+				}
 				let empty_window = par == Par::L(0);
-				let restored = guard(|| inst.de(&snap));
+				let restored = guard(|| snap.restore_m(inst.as_ref()));
 				match restored {
 					Ok(Ok(mut rs)) => {
 						// the serialized forms agree
-						match rs.ser() {
-							Ok(v2) if v2 == snap => {}
-							_ => r.violate(&format!("C13|{}|reserialized-differs", m.name), "serialize(deserialize(s)) != s", || case(k, "reserialize")),
+						if !snap.same_as_m(rs.as_ref()) {
+							r.violate(&format!("C13|{}|reserialized-differs", m.name), "serialize(deserialize(s)) != s", || case(k, "reserialize"));
 						}
 						// through text
-						let txt = snap.to_string();
-						match serde_json::from_str::<Value>(&txt) {
-							Ok(v3) if v3 == snap => {}
-							_ => r.violate(&format!("C13|{}|text-roundtrip-differs", m.name), "the JSON text form does not round-trip to the same value", || case(k, "text")),
+						let mut via_text = None;
+						if let Snap::J(snap) = &snap {
+							let txt = snap.to_string();
+							match serde_json::from_str::<Value>(&txt) {
+								Ok(v3) if v3 == *snap => {}
+								_ => r.violate(&format!("C13|{}|text-roundtrip-differs", m.name), "the JSON text form does not round-trip to the same value", || case(k, "text")),
+							}
+							via_text = guard(|| inst.de(&serde_json::from_str::<Value>(&txt).unwrap_or(Value::Null))).ok().and_then(Result::ok);
 						}
-						let mut via_text = guard(|| inst.de(&serde_json::from_str::<Value>(&txt).unwrap_or(Value::Null))).ok().and_then(Result::ok);
 						// identical continuation
 						let mut orig = inst.bclone();
 						let mut bad = None;
@@ -111,6 +183,7 @@ fn snapshot_method(m: &MDesc, len: u64, class: usize, seed: u64, all_k: bool, r:
 					Err(p) => r.violate(&format!("C13|{}|deserialize-panic:{}", m.name, p.class()), &p.msg, || case(k, "deserialize")),
 				}
 			}
+			}
 		}
 		if k < pre {
 			if guard(|| inst.next(&xs[k])).is_err() {
@@ -154,15 +227,19 @@ fn snapshot_indicator(d: &reg::IDesc, cfg: &dyn reg::DC, cs: &[Candle], seed: u6
 	let ks = [0usize, 1, 2, 7, pre / 2, pre - 1, pre];
 	for k in 0..=pre {
 		if ks.contains(&k) {
+			for route in 0..2 {
 			r.eval(1);
-			match guard(|| inst.ser()) {
+			match guard(|| if route == 0 { inst.ser().map(Snap::J) } else { inst.ser_b().map(Snap::B) }) {
 				Ok(Ok(snap)) => {
-					if has_null(&snap) {
-						r.count("snapshots_skipped_non_finite_state", 1);
+					if snap.json_with_null() {
+						r.count("json_snapshots_skipped_non_finite_state", 1);
 					} else {
-						match guard(|| inst.de(&snap)) {
+						if snap.nonfinite() {
+							r.count("bit_exact_snapshots_with_non_finite_state", 1);
+						}
+						match guard(|| snap.restore_i(inst.as_ref())) {
 							Ok(Ok(mut rs)) => {
-								if rs.ser().ok().as_ref() != Some(&snap) {
+								if !snap.same_as_i(rs.as_ref()) {
 									r.violate(&format!("C13|{}|reserialized-differs", d.name), "serialize(deserialize(s)) != s", || case(k, "reserialize"));
 								}
 								let mut orig = inst.bclone();
@@ -188,6 +265,7 @@ fn snapshot_indicator(d: &reg::IDesc, cfg: &dyn reg::DC, cs: &[Candle], seed: u6
 				}
 				Ok(Err(e)) => r.violate(&format!("C13|{}|serialize-error", d.name), &e, || case(k, "serialize")),
 				Err(p) => r.violate(&format!("C13|{}|serialize-panic:{}", d.name, p.class()), &p.msg, || case(k, "serialize")),
+			}
 			}
 		}
 		if k < pre && guard(|| inst.next(&cs[k])).is_err() {
@@ -288,6 +366,77 @@ fn adversarial_in(name: &str, snap: &Value, de: &dyn Fn(&Value) -> Result<(), St
 	}
 }
 
+/// plain data types with derived Serialize/Deserialize: Action, Candle (incl. candles without volume), Source, IndicatorResult
+fn plain_roundtrips(ctx: &Ctx, r: &mut Report) {
+	use yata::core::{Action, IndicatorResult, Source};
+	fn both<T: serde::Serialize + serde::de::DeserializeOwned>(t: &T, json_ok: bool) -> Result<(), String> {
+		let b = crate::sv::to_sv(t)?;
+		let t2: T = crate::sv::from_sv(&b)?;
+		if crate::sv::to_sv(&t2)? != b {
+			return Err("bit-exact route: serialize(deserialize(s)) != s".into());
+		}
+		if json_ok {
+			let j = serde_json::to_value(t).map_err(|e| e.to_string())?;
+			let txt = j.to_string();
+			let t3: T = serde_json::from_str(&txt).map_err(|e| e.to_string())?;
+			if crate::sv::to_sv(&t3)? != b {
+				return Err("JSON text route: the restored value is not bit-identical".into());
+			}
+		}
+		Ok(())
+	}
+	let mut acts = vec![Action::None];
+	for v in 0..=255u8 {
+		acts.push(Action::Buy(v));
+		acts.push(Action::Sell(v));
+	}
+	for a in &acts {
+		r.eval(1);
+		match guard(|| both(a, true)) {
+			Ok(Ok(())) => {}
+			Ok(Err(e)) => r.violate("C13|Action|roundtrip-differs", &e, || json!({"action": format!("{a:?}")})),
+			Err(p) => r.violate(&format!("C13|Action|roundtrip-panic:{}", p.class()), &p.msg, || json!({"action": format!("{a:?}")})),
+		}
+	}
+	r.cell("plain:Action");
+	for s in [Source::Open, Source::High, Source::Low, Source::Close, Source::Volume, Source::TP, Source::HL2, Source::VolumedPrice] {
+		r.eval(1);
+		if !matches!(guard(|| both(&s, true)), Ok(Ok(()))) {
+			r.violate("C13|Source|roundtrip-differs", "a Source does not round-trip", || json!({"source": format!("{s:?}")}));
+		}
+	}
+	r.cell("plain:Source");
+	let mut rng = Rng::new(ctx.seed ^ 0xCA4D);
+	for k in 0..ctx.pick(40u64, 200) {
+		let mut cs = gen::candles((k % 8) as usize, ctx.seed ^ k, 40, 5);
+		for c in cs.iter_mut() {
+			if rng.chance(0.3) {
+				c.volume = V::NAN;
+			}
+		}
+		for c in &cs {
+			r.eval(1);
+			let json_ok = c.volume.is_finite();
+			match guard(|| both(c, json_ok)) {
+				Ok(Ok(())) => {}
+				Ok(Err(e)) => r.violate("C13|Candle|roundtrip-differs", &e, || json!({"candle": format!("{c:?}")})),
+				Err(p) => r.violate(&format!("C13|Candle|roundtrip-panic:{}", p.class()), &p.msg, || json!({"candle": format!("{c:?}")})),
+			}
+			r.cell(if json_ok { "plain:Candle:with-volume" } else { "plain:Candle:no-volume(NaN)" });
+			let n = 1 + rng.below(4) as usize;
+			let vals: Vec<V> = (0..n).map(|i| if rng.chance(0.1) { V::NAN } else { c.close * (i as V + 0.5) }).collect();
+			let sigs: Vec<Action> = (0..rng.below(5) as usize).map(|_| acts[rng.below(acts.len() as u64) as usize]).collect();
+			let res = IndicatorResult::new(&vals, &sigs);
+			r.eval(1);
+			let finite = vals.iter().all(|v| v.is_finite());
+			if !matches!(guard(|| both(&res, finite)), Ok(Ok(()))) {
+				r.violate("C13|IndicatorResult|roundtrip-differs", "an IndicatorResult does not round-trip", || json!({"values": format!("{vals:?}"), "signals": format!("{sigs:?}")}));
+			}
+		}
+	}
+	r.cell("plain:IndicatorResult");
+}
+
 pub fn run(ctx: &Ctx, r: &mut Report) {
 	if let Some(rp) = &ctx.replay {
 		let c = if rp["case"].get("case").is_some() { &rp["case"]["case"] } else { &rp["case"] };
@@ -297,7 +446,7 @@ pub fn run(ctx: &Ctx, r: &mut Report) {
 			let d = reg::indicator(iname);
 			if let Ok(cfg) = (d.default)().de(&c["config"]) {
 				let seed = c["seed"].as_u64().unwrap_or(0);
-				let cs = gen::candles((seed % 5) as usize, seed, 160, 14);
+				let cs = ind_candles(seed);
 				snapshot_indicator(&d, cfg.as_ref(), &cs, seed, r);
 			}
 		}
@@ -347,7 +496,7 @@ pub fn run(ctx: &Ctx, r: &mut Report) {
 				continue;
 			}
 			let seed = ctx.seed ^ k << 8;
-			let cs = gen::candles((seed % 5) as usize, seed, 160, 14);
+			let cs = ind_candles(seed);
 			snapshot_indicator(&d, cfg.as_ref(), &cs, seed, r);
 			if ci == 0 {
 				// adversarial windows inside the default instance
@@ -364,6 +513,7 @@ pub fn run(ctx: &Ctx, r: &mut Report) {
 		}
 	}
 	if ctx.mine(0) {
+		plain_roundtrips(ctx, r);
 		r.sample(|| json!({"method": "SMM", "len": 5, "snapshot points": "after 0..=17 steps", "check": "restored = from_value(to_value(x)); 60-step continuation bit-identical; to_value(restored) == to_value(x); JSON text round trip"}));
 		r.sample(|| json!({"adversarial": "every embedded {buf,index} object of every method/indicator state mutated 16 ways (index=len, len+1, MAX; buf of MAX/MAX+1/1000 elements; wrong types; missing fields)", "oracle": "malformed => Err, never a panic"}));
 	}
